@@ -13,6 +13,7 @@ import (
 	_ "verif/sim/cachesim"
 	_ "verif/sim/fcsim"
 	_ "verif/sim/poolsim"
+	_ "verif/sim/schedsim"
 )
 
 func usage() {
@@ -66,6 +67,19 @@ func main() {
 			fmt.Println("REPLAY-MISMATCH: the recorded signature was not reproduced")
 			os.Exit(2)
 		}
+	case "run-json":
+		// one run in this process: engine seed optjson
+		seed, _ := strconv.ParseUint(os.Args[3], 10, 64)
+		var opt core.Options
+		if len(os.Args) > 4 {
+			json.Unmarshal([]byte(os.Args[4]), &opt)
+		}
+		r := core.Lookup(os.Args[2]).Run(seed, opt)
+		r.Script, r.Config, r.Sample = nil, nil, nil
+		json.NewEncoder(os.Stdout).Encode(r)
+	case "determinism":
+		// determinism <engine> <optjson> <nseeds>: every seed 3x in fresh processes under GOMAXPROCS 1/4/16
+		os.Exit(core.Determinism(os.Args[2], os.Args[3], os.Args[4]))
 	case "gen":
 		seed, _ := strconv.ParseUint(os.Args[3], 10, 64)
 		var opt core.Options
